@@ -20,7 +20,9 @@ type Profile struct {
 
 func ProfileSyntax() *Profile {
 	return &Profile{
-		Idents:   []string{"a", "b", "c", "x1", "_", "_v", "msg", "é", "a b", "1x", "if", "IN", "ü_1", "注", "\ufeffa", "\ufeff", "\u200bq", "\U0001F600"},
+		Idents: []string{"a", "b", "c", "x1", "_", "_v", "msg", "é", "a b", "1x", "if", "IN", "ü_1", "注", "\ufeffa", "\ufeff", "\u200bq", "\U0001F600",
+			// words that start or end like a reserved word
+			"identifiers", "identifier_id", "IdentifierCount", "iffy", "format", "inner", "elsewhere", "breaks", "continued", "truely", "nilx", "nullable", "infx", "nanx", "in1", "xif", "bfor", "_in", "elif2", "Trueish"},
 		Funcs:    []string{"f", "g", "len", "add_key", "my fn"},
 		Strs:     []string{"", "a", "ab", "a\"b", "it's", "é", "\n", "\\", "#", "x y", "\x00", "k"},
 		MaxDepth: 5,
